@@ -1,6 +1,7 @@
 import Mp4ff.Model.Nalu
 import Mp4ff.Lemmas.ScanEq
 import Mp4ff.Lemmas.C14Conv
+import Mp4ff.Lemmas.C14Conv2
 /-!
 # C14 — NAL unit framing conversions preserve the NAL unit sequence
 Property theorems.  (Scanner equivalence, conversion and walker theorems are added from
@@ -95,6 +96,32 @@ theorem anyTypeIn_lenPrefixed (c : Codec) (lo hi : Nat) (ns : List Bytes) (h : N
     anyTypeIn c lo hi (lenPrefixed ns) =
       (ns.map (fun n => c.typeOf (n.headD 0))).any fun t => lo ≤ t ∧ t ≤ hi := by
   unfold anyTypeIn; rw [Nalu.naluTypes_lenPrefixed c ns h]
+
+/-- **Annex B → length-prefixed** (`ConvertByteStreamToNaluSample`), any mix of 3/4-byte start codes: both
+    the in-place branch (all start codes 4 bytes) and the copying branch give the 4-byte length-prefixed units -/
+theorem toSample_annexB (units : List (Nat × Bytes)) (h : UnitsOK units) (hb : UnitsBytes units)
+    (hlen : (annexB units).length < U32) :
+    toSample (annexB units) = lenPrefixed (units.map (·.2)) := Nalu.toSample_annexB units h hb hlen
+
+/-- `GetParameterSetsFromByteStream` (AVC): the SPS/PPS units before the first video unit -/
+theorem paramSetsFromByteStream_avc (units : List (Nat × Bytes)) (h : UnitsOK units) :
+    paramSetsFromByteStream avc avcIsPS (annexB units) = psSpecU avc avcIsPS units :=
+  Nalu.paramSetsFromByteStream_annexB_avc units h
+
+/-- `GetParameterSetsFromByteStream` (HEVC): the VPS/SPS/PPS units before the first video unit -/
+theorem paramSetsFromByteStream_hevc (units : List (Nat × Bytes)) (h : UnitsOK units) :
+    paramSetsFromByteStream hevc hevcIsPS (annexB units) = psSpecU hevc hevcIsPS units :=
+  Nalu.paramSetsFromByteStream_annexB_hevc units h
+
+/-- `ExtractNalusOfTypeFromByteStream` (both codecs): the units of the wanted type, before the first video unit if asked -/
+theorem extractOfType_annexB (c : Codec) (t : Nat) (stop : Bool) (units : List (Nat × Bytes)) (h : UnitsOK units) :
+    extractOfType c (annexB units) t stop = ofTypeSpec c t stop (units.map (·.2)) :=
+  Nalu.extractOfType_annexB c t stop units h
+
+/-- `GetFirstAVCVideoNALUFromByteStream`: the first video unit -/
+theorem firstVideoNalu_annexB (c : Codec) (units : List (Nat × Bytes)) (h : UnitsOK units) :
+    firstVideoNalu c (annexB units) = (units.map (·.2)).find? (fun n => c.isVideo (c.typeOf (n.headD 0))) :=
+  Nalu.firstVideoNalu_annexB c units h
 
 /-! non-vacuity -/
 example : UnitsOK [(4, [0x67, 1, 2]), (3, [0x68, 0, 0x80]), (4, [0x65])] := by
